@@ -257,6 +257,19 @@ def run_history(tests, setting):
             top.startTest(t)
             top.addSuccess(t)
             top.stopTest(t)
+            top.time(ts(50))
+            t = make_test("placeholder", 102)
+            top.startTest(t)
+            top.addSuccess(t)
+            top.stopTest(t)
+            top.stopTestRun()
+            # a fourth run, whose first supplied time happens to equal the last one of the third
+            top.startTestRun()
+            top.time(ts(50))
+            t = make_test("placeholder", 103)
+            top.startTest(t)
+            top.addSuccess(t)
+            top.stopTest(t)
             top.stopTestRun()
         except Exception as e:
             problems.append(("call-raised", "second run: %s: %s" % (type(e).__name__, str(e)[:150])))
@@ -265,9 +278,13 @@ def run_history(tests, setting):
         evs3 = [e[1] for e in stream.log[n_second:] if e[0] == "status"]
         del stream.log[n_second:]
         got3 = [("supplied" if e["timestamp"] == ts(50) else "clock" if e["timestamp"] is not None and before <= e["timestamp"] <= after else repr(e["timestamp"])) for e in evs3]
-        if got3 != ["supplied", "supplied", "clock", "clock"]:
-            problems.append(("stream-time", "third run, time(t) for the first test and time(None) before the second: event timestamps are %r" % (got3,)))
-        n_ext3 = [i for i, e in enumerate(ext.log) if e[0] == "startTestRun"][-1]
+        if got3 != ["supplied", "supplied", "clock", "clock", "supplied", "supplied", "supplied", "supplied"]:
+            problems.append(("stream-time", "third run, time(t) for the first test, time(None) before the second, time(t) before the third, and a fourth run starting with time(t): event timestamps are %r" % (got3,)))
+        runs_ext = [i for i, e in enumerate(ext.log) if e[0] == "startTestRun"]
+        times4 = [e[1] for e in ext.log[runs_ext[-1] :] if e[0] == "time"]
+        if not times4 or any(x != ts(50) for x in times4):
+            problems.append(("roundtrip-times", "fourth run, every time supplied is %r: the far end was told %r" % (ts(50), times4)))
+        n_ext3 = runs_ext[-2]
         del ext.log[n_ext3:]
         evs2 = [e[1] for e in stream.log[len(first_stream) :] if e[0] == "status"]
         if [e["test_status"] for e in evs2 if e["test_status"]] != ["inprogress", "success"]:
